@@ -237,9 +237,14 @@ impl OverlayFs {
             r is Ok && r->Ok_0 is None ==> !lower_has(self.child_path(parent, name@)),
             r is Ok ==> (r->Ok_0 is Some <==> self.has_node(parent, name@)) { unimplemented!() }
     pub uninterp spec fn has_node(&self, parent: u64, name: Seq<char>) -> bool;
+}
+// the children of this directory node have been read from the layers (what load_directory establishes): only then does the node's child table say what the
+// merged directory contains - "rmdir of a non-empty directory fails" counts the entries of the directory BEING REMOVED, after loading IT
+pub uninterp spec fn dir_loaded(h: Heap, nid: int) -> bool;
+impl OverlayFs {
     #[verifier::external_body] fn load_directory(&self, ctx: &Context, node: &Arc<OverlayInode>, Tracked(vxh): Tracked<&mut Heap>) -> (r: Result<()>)
         requires old(vxh).inv()
-        ensures OverlayFs::lookup_frame(*old(vxh), *final(vxh)) { unimplemented!() }
+        ensures OverlayFs::lookup_frame(*old(vxh), *final(vxh)), r is Ok ==> dir_loaded(*final(vxh), node.nid()) { unimplemented!() }
     #[verifier::external_body] fn alloc_inode(&self, path: &String, Tracked(vxh): Tracked<&mut Heap>) -> (r: Result<u64>) ensures *final(vxh) == *old(vxh) { unimplemented!() }
     #[verifier::external_body] fn insert_inode(&self, inode: u64, node: Arc<OverlayInode>, Tracked(vxh): Tracked<&mut Heap>) ensures *final(vxh) == *old(vxh) { unimplemented!() }
     #[verifier::external_body] fn remove_inode(&self, inode: u64, path_removed: Option<String>, Tracked(vxh): Tracked<&mut Heap>) -> (r: Option<Arc<OverlayInode>>) ensures *final(vxh) == *old(vxh) { unimplemented!() }
@@ -554,6 +559,9 @@ def unit(root='/repo'):
                             ==> %s == (UpMut::Whiteout { dir: final(vxh).ris(pn.nid())[0].inode, name: name@ }) }) // [C11.do_rm.whiteout_when_lower] removing a name a lower layer still shows leaves a whiteout in the upper directory (unless that directory is opaque): the deletion survives a restart''' % NEWLOG,
                     REC_CLAUSE % 'do_rm'] if CHECK_LOWER_RECORD else []),
                 splices=[('let node = self.lookup_node(ctx, parent, sname.as_str(), Tracked(vxh))?;', 'after', 'let ghost nd = node.nid(); let ghost pn = pnode.nid(); proof { reveal_strlit(""); assert(""@ =~= Seq::<char>::empty()); }'),
+                         ('let (count, whiteouts) = node.count_entries_and_whiteout(ctx, Tracked(vxh))?;', 'before', '''proof {
+                assert(dir_loaded(*vxh, node.nid())); // [C10.do_rm.counts_loaded_dir]
+            }'''),
                          ('let mut need_whiteout = true;', 'before', 'let ghost hb = *vxh;'),
                          ('let pnode = self.copy_node_up(ctx, Arc::clone(&pnode), Tracked(vxh))?;', 'after', RM_AFTER_COPY),
                          ('Ok(())\n    }', 'before', RM_END)],
